@@ -24,6 +24,12 @@ CHECKS = {
  "C05": ("model_checking", "TLC on ZkAbacus.tla (TokenIffOpens) and RevPair.tla + trace validation of wrong-revocation candidates and crafted pairs",
          "complete_payment is driven with wrong candidates (repeated with identical material) before the right one in TLC-generated and random histories and validated by TLC; revocation pairs are "
          "generated under chosen secrets and decoded from crafted bytes (incl. non-canonical digests at the modulus boundary) and validated against RevPair.tla with independently recomputed SHA3 facts", "6 C05"),
+ "C06": ("model_checking", "TLC on ProofGame (Open clusters), Transcript.tla (tuple components) and ZkAbacus.tla (ReplayRefused) + single-component substitutions validated by TLC",
+         "an honest establish / pay proof is verified under every single-component substitution of its tuple (merchant configurations sharing all parts but one are built with from_parts; fresh and near values; "
+         "channel-id bit flips; context bytes), closing messages get each field replaced by values of other states / channels, and replay-heavy protocol histories are validated against ZkAbacus.tla", "6 C06"),
+ "C12": ("model_checking", "TLC on Transcript.tla with observed hashed sets + per-atom substitution observations validated by TLC",
+         "for every ChallengeInput type and both composite proofs every non-response atom of the wire form is replaced by another valid atom and the recorded transcript / challenge is compared; "
+         "builder challenge = proof challenge and challenge = SHA3(transcript) are checked; TLC decides Binding/FirstMessageHashed on Transcript.tla for the observed sets", "6 C12"),
  "C20": ("model_checking", "TLC on ZkAbacus.tla (Restore refines stuttering) + twin execution at every step validated by TLC",
          "every customer API call of every explored history is executed on the live object and on a twin restored from its bincode image with the same randomness; TLC validates that restores are "
          "stuttering steps and that the twin agrees byte-for-byte (aspect twin) at every event", "6 C20"),
